@@ -1049,7 +1049,7 @@ func extra4C11(c *Ctx) {
 				}
 				c.Check(rule, f.Key()+" return#"+itoa(n)+" carries TotalSize", c.Pos(ex.Return), ok, "this return hands back an estimate whose TotalSize was never set (0): the CPU fit test then always succeeds")
 			}
-			c.Expect(rule, "returns of EstimateGPULayers", n, 3)
+			c.Expect(rule, "returns of EstimateGPULayers", n, 1) // every return is judged, however many there are
 		}
 	}
 
